@@ -550,6 +550,8 @@ def allclose(a, b, rtol=1e-8, atol=None):
         except TypeError:
             return np.all([_d <= lim for _d in d])
         else:
+            if len(lim) != len(d):  # ``a`` was broadcast against ``b``
+                lim = lim + 0 * d
             return np.all([_d <= _lim for _d, _lim in zip(d, lim)])
 
 
